@@ -5,8 +5,8 @@ import Ledger.Ctrl.Replay
 /-!
 Volumes under replay: the live write path locks balances (`GetBalances` inserts
 zero rows) before `UpdateVolumes`; the replay only runs `UpdateVolumes`.  `VolRel`
-relates the two tables in between; when every row of the live result is covered
-(`volumesCovered`) the two results are equal.
+relates the two tables: the live one is the replayed one plus possibly some zero
+rows, hence equal as values (`normVolumes`).
 -/
 namespace Ledger.Ctrl
 open Ledger.Base Ledger.Core
@@ -83,64 +83,56 @@ theorem VolRel.fold_add {v1 v2 : PCV} (h : VolRel v1 v2) (ups : PCV) :
   | nil => exact h
   | cons e r ih => exact ih (h.addVolumes e)
 
-/-- Rows are never removed by `UpdateVolumes`, and every updated key has a row. -/
-theorem fold_add_keeps (ups : PCV) (v : PCV) (hw : Map.WF v) (k : Key)
-    (hk : (v.get? k).isSome = true ∨ ∃ e ∈ ups, e.1 = k) :
-    ((ups.foldl Ledger.Ctrl.addVolumes v).get? k).isSome = true := by
-  induction ups generalizing v with
-  | nil =>
-    rcases hk with hk | ⟨e, he, _⟩
-    · exact hk
-    · cases he
-  | cons e r ih =>
-    simp only [List.foldl_cons]
-    apply ih _ (Map.WF_insertWith _ _ _ hw)
-    have hget : ∀ k', (Map.get? (Ledger.Ctrl.addVolumes v e) k') =
-        if k' = e.1 then some ((Ledger.Ctrl.volOf v e.1).add e.2) else v.get? k' := by
-      intro k'
-      unfold Ledger.Ctrl.addVolumes Map.insert
-      rw [Map.get?_insertWith _ _ _ hw]
-      by_cases hkk : k' = e.1
-      · rw [if_pos hkk, if_pos hkk]; cases v.get? e.1 <;> rfl
-      · rw [if_neg hkk, if_neg hkk]
-    rcases hk with hk | ⟨e', he', hke⟩
-    · left
-      show (Map.get? (Ledger.Ctrl.addVolumes v e) k).isSome = true
-      rw [hget]
-      by_cases hkk : k = e.1
-      · rw [if_pos hkk]; rfl
-      · rw [if_neg hkk]; exact hk
-    · rcases List.mem_cons.mp he' with rfl | hr
-      · left
-        show (Map.get? (Ledger.Ctrl.addVolumes v e') k).isSome = true
-        rw [hget, if_pos hke.symm]; rfl
-      · right; exact ⟨e', hr, hke⟩
+/-! ### volumes as values -/
 
-/-- Covered ⇒ the live and the replayed `UpdateVolumes` give the same table. -/
-theorem VolRel.covered_eq {v1 v2 : PCV} (h : VolRel v1 v2) (ups : PCV)
-    (hc : ∀ k ∈ (ups.foldl Ledger.Ctrl.addVolumes v1).keys, v2.contains k = true ∨ ups.contains k = true) :
-    ups.foldl Ledger.Ctrl.addVolumes v1 = ups.foldl Ledger.Ctrl.addVolumes v2 := by
-  have hr := h.fold_add ups
-  apply Map.ext_of_WF hr.wf1 hr.wf2
+theorem WF_filter {κ ν : Type} [KeyOrd κ] (p : κ × ν → Bool) {m : Map κ ν} (hw : Map.WF m) : Map.WF (m.filter p) :=
+  List.Pairwise.filter p hw
+
+theorem get?_filter (p : Key × Volumes → Bool) {m : PCV} (hw : Map.WF m) (k : Key) :
+    Map.get? (m.filter p) k = (Map.get? m k).filter (fun v => p (k, v)) := by
+  induction m with
+  | nil => rfl
+  | cons e r ih =>
+    obtain ⟨k0, v0⟩ := e
+    have hr := Map.WF_tail hw
+    have hnone : k0 = k → Map.get? r k = none := by
+      intro hk
+      subst hk
+      apply Map.get?_eq_none_of_not_mem_keys
+      intro hmem
+      simp only [Map.keys, List.mem_map] at hmem
+      obtain ⟨x, hx, hxk⟩ := hmem
+      have := (Map.WF_cons.mp hw).1 x hx
+      simp only [hxk, LawfulKeyOrd.irrefl] at this
+      exact Bool.false_ne_true this
+    by_cases hp : p (k0, v0) = true
+    · rw [List.filter_cons_of_pos hp]
+      simp only [Map.get?_cons]
+      by_cases hk : k0 = k
+      · subst hk; simp only [↓reduceIte, Option.filter, hp]
+      · simp only [hk, ↓reduceIte]; exact ih hr
+    · rw [List.filter_cons_of_neg hp, ih hr]
+      simp only [Map.get?_cons]
+      by_cases hk : k0 = k
+      · rw [hnone hk]
+        subst hk
+        simp only [↓reduceIte, Option.filter, hp, Bool.false_eq_true]
+      · simp only [hk, ↓reduceIte]
+
+/-- Tables that differ by zero rows are equal as values. -/
+theorem VolRel.norm_eq {v1 v2 : PCV} (h : VolRel v1 v2) : normVolumes v1 = normVolumes v2 := by
+  unfold normVolumes
+  apply Map.ext_of_WF (WF_filter _ h.wf1) (WF_filter _ h.wf2)
   intro k
-  cases h2 : (ups.foldl Ledger.Ctrl.addVolumes v2).get? k with
-  | some x => exact hr.sub k x h2
+  rw [get?_filter _ h.wf1, get?_filter _ h.wf2]
+  cases h2 : v2.get? k with
+  | some x => rw [h.sub k x h2]
   | none =>
-    cases h1 : (ups.foldl Ledger.Ctrl.addVolumes v1).get? k with
+    cases h1 : v1.get? k with
     | none => rfl
     | some x =>
-      exfalso
-      have hmem := Map.mem_keys_of_get? h1
-      have hsome : ((ups.foldl Ledger.Ctrl.addVolumes v2).get? k).isSome = true := by
-        apply fold_add_keeps ups v2 h.wf2 k
-        rcases hc k hmem with hv | hu
-        · left; exact hv
-        · right
-          have := Map.contains_iff_mem_keys.mp hu
-          simp only [Map.keys, List.mem_map] at this
-          exact this
-      rw [h2] at hsome
-      cases hsome
+      rw [h.zero k x h1 h2]
+      simp [Option.filter]
 
 /-- A program of balance locks and account reads: volumes gain zero rows at most. -/
 theorem eval_lockOnly_vol {α : Type} (now : Time) (p : Prog α) (hp : p.All Call.LockOnly) (d : Db) (sq : Seqs)
